@@ -15,7 +15,7 @@ Extraction "model.ml"
   init_stage sstep prepare receive settle restart clean timers_fire received_q status_q scan_q
   ahas alookup log_has SETTLE_FUEL
   run_send on_poll finish_step track_add scan_once scan_once_c sc_clean
-  effective reencode parse_tag propagate_tags file_tag chunk_table
+  effective reencode parse_tag propagate_tags file_tag chunk_table ignore_table
   handle_validate is_local clean_rel clean_abs resolve names_local
   enc_header decode decode_header split_spec translate
   prune
